@@ -3,7 +3,8 @@
 //! compares bit-for-bit.
 
 use glam::*;
-use hx::acc::{fmt_expected, Acc, Obs};
+use hx::acc::{fmt_expected, fmt_expected_p, Acc, Obs};
+use hx::mt::{MObs, MT};
 use hx::swz_gen;
 use hx::tv::{tok_bits, Scalar, TV};
 use hx::*;
@@ -132,7 +133,7 @@ fn run_acc_from<V: Acc>(rep: &mut Report, c: &Value, reg0: V) {
                     if ob != pb { bad = true; detail = json!({"observed": hex(&ob)}); }
                 }
                 Obs::Text(s) => {
-                    let e = fmt_expected(V::NAME, &pl, path == "debug");
+                    let e = if path == "display_prec" { fmt_expected_p(V::NAME, &pl, false, true) } else { fmt_expected(V::NAME, &pl, path == "debug") };
                     if s != e { bad = true; detail = json!({"observed": s, "expected_text": e}); }
                 }
                 Obs::Bool(b) => {
@@ -161,6 +162,164 @@ fn run_acc(rep: &mut Report, c: &Value) {
     }
 }
 
+// ------------------------------------------------------------------ matrices (C06)
+fn run_mat_ty<M: MT>(rep: &mut Report, c: &Value) {
+    let init = toks(&c["init"]);
+    let ib: Vec<M::S> = bits_of::<M::S>(&init).iter().map(|b| M::S::from_u64(*b)).collect();
+    let mut reg: M = M::from_flat(&ib);
+    for (k, st) in c["steps"].as_array().unwrap().iter().enumerate() {
+        let act = st["act"].as_str().unwrap();
+        let path = st["path"].as_str().unwrap();
+        let post = toks(&st["post"]);
+        let pb = bits_of::<M::S>(&post);
+        let pl: Vec<M::S> = pb.iter().map(|b| M::S::from_u64(*b)).collect();
+        let ob = bits_of::<M::S>(&toks(&st["obs"]));
+        rep.evals += 1;
+        let mut obs: Option<MObs<M::S>> = None;
+        let r = catch(|| match act {
+            "ctor" => { if let Some(v) = M::ctor(path, &pl) { reg = v; true } else { false } }
+            "const" => { if let Some(v) = M::konst(path) { reg = v; true } else { false } }
+            "write" => {
+                let t = M::S::from_u64(tok_bits(M::S::SC, st["tok"].as_str().unwrap()));
+                reg.write(path, st["r"].as_u64().unwrap() as usize, st["c"].as_u64().unwrap() as usize, t)
+            }
+            "read" => { obs = reg.read(path); obs.is_some() }
+            _ => panic!("act {act}"),
+        });
+        let applicable = match r {
+            Ok(a) => a,
+            Err(p) => {
+                rep.mismatch(json!({"prop": "C06", "ty": M::NAME, "op": format!("{act}:{path}"), "step": k,
+                    "exp": st["post"], "got": "panic", "panic": p, "case": c}));
+                return;
+            }
+        };
+        if !applicable {
+            if act != "read" { reg = M::from_flat(&pl); }
+            continue;
+        }
+        let gb: Vec<u64> = reg.flat().iter().map(|x| x.to_u64()).collect();
+        let mut bad = gb != pb;
+        let mut detail = json!(null);
+        if let Some(o) = obs {
+            match o {
+                MObs::Flat(l) => {
+                    let g: Vec<u64> = l.iter().map(|x| x.to_u64()).collect();
+                    if g != ob { bad = true; detail = json!({"observed": hex(&g), "expected_obs": hex(&ob)}); }
+                }
+                MObs::Text(s) => {
+                    let e = if path == "display_prec" { M::fmt_expected_prec(&pl) } else { M::fmt_expected(&pl, path == "debug") };
+                    if s != e { bad = true; detail = json!({"observed": s, "expected_text": e}); }
+                }
+                MObs::Bool(b) => { if !b { bad = true; detail = json!({"observed": b}); } }
+            }
+        }
+        if bad {
+            rep.mismatch(json!({"prop": "C06", "ty": M::NAME, "op": format!("{act}:{path}"), "step": k,
+                "r": st["r"], "c": st["c"], "tok": st["tok"], "exp": st["post"], "exp_bits": hex(&pb),
+                "got_bits": hex(&gb), "detail": detail, "case": c}));
+            return;
+        }
+    }
+}
+
+fn run_mat(rep: &mut Report, c: &Value) {
+    let r = c["r"].as_u64().unwrap();
+    let cc = c["c"].as_u64().unwrap();
+    match (r, cc) {
+        (2, 2) => { run_mat_ty::<Mat2>(rep, c); run_mat_ty::<DMat2>(rep, c); }
+        (3, 3) => { run_mat_ty::<Mat3>(rep, c); run_mat_ty::<Mat3A>(rep, c); run_mat_ty::<DMat3>(rep, c); }
+        (4, 4) => { run_mat_ty::<Mat4>(rep, c); run_mat_ty::<DMat4>(rep, c); }
+        (2, 3) => { run_mat_ty::<Affine2>(rep, c); run_mat_ty::<DAffine2>(rep, c); }
+        (3, 4) => { run_mat_ty::<Affine3A>(rep, c); run_mat_ty::<DAffine3>(rep, c); }
+        _ => panic!("shape"),
+    }
+}
+
+/// data movement between matrix shapes: (source type, destination type, conversion)
+fn mv<A: MT, B: MT>(rep: &mut Report, c: &Value, what: &str, f: impl FnOnce(A) -> B) {
+    let src: Vec<A::S> = bits_of::<A::S>(&toks(&c["src"])).iter().map(|b| A::S::from_u64(*b)).collect();
+    let eb = bits_of::<B::S>(&toks(&c["exp"]));
+    rep.evals += 1;
+    let a = A::from_flat(&src);
+    match catch(|| f(a)) {
+        Err(p) => rep.mismatch(json!({"prop": "C06", "ty": B::NAME, "op": what, "exp": c["exp"], "got": "panic", "panic": p, "case": c})),
+        Ok(b) => {
+            let gb: Vec<u64> = b.flat().iter().map(|x| x.to_u64()).collect();
+            if gb != eb {
+                rep.mismatch(json!({"prop": "C06", "ty": B::NAME, "op": what, "src_ty": A::NAME, "i": c["i"], "j": c["j"],
+                    "exp": c["exp"], "exp_bits": hex(&eb), "got_bits": hex(&gb), "case": c}));
+            }
+        }
+    }
+}
+
+fn run_matmove(rep: &mut Report, c: &Value) {
+    let kind = c["kind"].as_str().unwrap();
+    let k = c["k"].as_u64().unwrap();
+    let i = c["i"].as_u64().unwrap() as usize;
+    let j = c["j"].as_u64().unwrap() as usize;
+    match (kind, k) {
+        ("minor", 3) => {
+            mv::<Mat3, Mat2>(rep, c, "Mat2::from_mat3_minor", |m| Mat2::from_mat3_minor(m, i, j));
+            mv::<Mat3A, Mat2>(rep, c, "Mat2::from_mat3a_minor", |m| Mat2::from_mat3a_minor(m, i, j));
+            mv::<DMat3, DMat2>(rep, c, "DMat2::from_mat3_minor", |m| DMat2::from_mat3_minor(m, i, j));
+        }
+        ("minor", 4) => {
+            mv::<Mat4, Mat3>(rep, c, "Mat3::from_mat4_minor", |m| Mat3::from_mat4_minor(m, i, j));
+            mv::<Mat4, Mat3A>(rep, c, "Mat3A::from_mat4_minor", |m| Mat3A::from_mat4_minor(m, i, j));
+            mv::<DMat4, DMat3>(rep, c, "DMat3::from_mat4_minor", |m| DMat3::from_mat4_minor(m, i, j));
+        }
+        ("block", 3) => {
+            mv::<Mat3, Mat2>(rep, c, "Mat2::from_mat3", Mat2::from_mat3);
+            mv::<Mat3A, Mat2>(rep, c, "Mat2::from_mat3a", Mat2::from_mat3a);
+            mv::<DMat3, DMat2>(rep, c, "DMat2::from_mat3", DMat2::from_mat3);
+        }
+        ("block", 4) => {
+            mv::<Mat4, Mat3>(rep, c, "Mat3::from_mat4", Mat3::from_mat4);
+            mv::<Mat4, Mat3A>(rep, c, "Mat3A::from_mat4", Mat3A::from_mat4);
+            mv::<DMat4, DMat3>(rep, c, "DMat3::from_mat4", DMat3::from_mat4);
+        }
+        ("embed", 2) => {
+            mv::<Mat2, Mat3>(rep, c, "Mat3::from_mat2", Mat3::from_mat2);
+            mv::<Mat2, Mat3A>(rep, c, "Mat3A::from_mat2", Mat3A::from_mat2);
+            mv::<DMat2, DMat3>(rep, c, "DMat3::from_mat2", DMat3::from_mat2);
+        }
+        ("embed", 3) => {
+            mv::<Mat3, Mat4>(rep, c, "Mat4::from_mat3", Mat4::from_mat3);
+            mv::<Mat3A, Mat4>(rep, c, "Mat4::from_mat3a", Mat4::from_mat3a);
+            mv::<DMat3, DMat4>(rep, c, "DMat4::from_mat3", DMat4::from_mat3);
+            mv::<Mat3, Mat3A>(rep, &fake_same(c), "Mat3A::from(Mat3)", Mat3A::from);
+            mv::<Mat3A, Mat3>(rep, &fake_same(c), "Mat3::from(Mat3A)", Mat3::from);
+        }
+        ("affine_to_mat", 2) => {
+            mv::<Affine2, Mat3>(rep, c, "Mat3::from(Affine2)", Mat3::from);
+            mv::<Affine2, Mat3A>(rep, c, "Mat3A::from(Affine2)", Mat3A::from);
+            mv::<DAffine2, DMat3>(rep, c, "DMat3::from(DAffine2)", DMat3::from);
+        }
+        ("affine_to_mat", 3) => {
+            mv::<Affine3A, Mat4>(rep, c, "Mat4::from(Affine3A)", Mat4::from);
+            mv::<DAffine3, DMat4>(rep, c, "DMat4::from(DAffine3)", DMat4::from);
+        }
+        ("mat_to_affine", 2) => {
+            mv::<Mat3, Affine2>(rep, c, "Affine2::from_mat3", Affine2::from_mat3);
+            mv::<Mat3A, Affine2>(rep, c, "Affine2::from_mat3a", Affine2::from_mat3a);
+            mv::<DMat3, DAffine2>(rep, c, "DAffine2::from_mat3", DAffine2::from_mat3);
+        }
+        ("mat_to_affine", 3) => {
+            mv::<Mat4, Affine3A>(rep, c, "Affine3A::from_mat4", Affine3A::from_mat4);
+            mv::<DMat4, DAffine3>(rep, c, "DAffine3::from_mat4", DAffine3::from_mat4);
+        }
+        _ => panic!("matmove {kind} {k}"),
+    }
+}
+/// the same case with exp = src (identity move between two layouts of one shape)
+fn fake_same(c: &Value) -> Value {
+    let mut d = c.clone();
+    d["exp"] = d["src"].clone();
+    d
+}
+
 fn main() {
     let args: Vec<String> = std::env::args().collect();
     quiet_panics();
@@ -172,6 +331,15 @@ fn main() {
             "swz" => {
                 rep.count_op(&format!("swz:{}:{}", c["kind"].as_str().unwrap(), c["n"]), 1);
                 run_swz(&mut rep, &c);
+            }
+            "mat" => {
+                let st = &c["steps"][0];
+                rep.count_op(&format!("mat:{}:{}", st["act"].as_str().unwrap(), st["path"].as_str().unwrap()), 1);
+                run_mat(&mut rep, &c);
+            }
+            "matmove" => {
+                rep.count_op(&format!("matmove:{}", c["kind"].as_str().unwrap()), 1);
+                run_matmove(&mut rep, &c);
             }
             "acc" => {
                 let st = &c["steps"][0];
